@@ -614,3 +614,59 @@ def near_year_edge(z, years):
                 if abs(ts(x) - ts(datetime.datetime(yy, 1, 1))) <= m:
                     return True
     return False
+
+
+# ------------------------------------------------------------------ known-finding discipline (review F1/F2/F8)
+
+def range_case_fields(z, x, wall=False):
+    """per-instant facts for the D-C05r / D-C04y matchers; x = UTC instant (or wall second when wall=True)"""
+    std = int(z._std_offset.total_seconds()); dst = int(z._dst_offset.total_seconds())
+    has = bool(z.hasdst)
+    sav = (dst - std) if has else 0
+    m = max(abs(std), abs(dst)) + abs(sav)
+    dt = EPOCH + TD(seconds=x)
+    d_ny = min(abs(x - ts(datetime.datetime(y, 1, 1))) for y in (dt.year, dt.year + 1))
+    d_tr = None
+    if has:
+        cands = []
+        for y in (dt.year - 1, dt.year, dt.year + 1):
+            if 1 < y < 9999:
+                tr = z.transitions(y)
+                if tr is not None:
+                    for q in tr:
+                        n = ts(q)
+                        cands += ([n, n + sav, n - sav] if wall else [n - std, n - dst])
+        if cands:
+            d_tr = min(abs(x - c) for c in cands)
+    return {"hasdst": has, "saving": sav, "near_newyear": bool(d_ny <= m),
+            "near_transition": bool(d_tr is not None and d_tr <= 2 * abs(sav) + 1)}
+
+
+def k_c05r(v):
+    c = v["case"]
+    return (c.get("kind") == "range" and c.get("hasdst") is True and c.get("saving", 0) < 0
+            and c.get("near_transition") is True and c.get("model_same") is True)
+
+
+def k_c04y(v):
+    c = v["case"]
+    return (c.get("kind") == "range" and c.get("hasdst") is True and c.get("saving", 0) > 0
+            and c.get("near_year_edge") is True and c.get("near_newyear") is True and c.get("model_same") is True)
+
+
+def report(ctx, known, what, case, detail=None, keep=3):
+    """ctx.violation, but failures matching a KNOWN class are stored at most `keep` times per class
+    (they are still counted), so that the 200-entry buffer stays available for unknown failures"""
+    v = {"what": what, "case": case, "detail": detail}
+    for kid, pred in known.items():
+        try:
+            hit = pred(v)
+        except Exception:
+            hit = False
+        if hit:
+            ctx.count("known_class:" + kid)
+            if ctx.hist["known_class:" + kid] > keep:
+                ctx.count("oracle_failures")
+                return
+            break
+    ctx.violation(what, case, detail)
